@@ -45,7 +45,22 @@ func c01Case(t *rapid.T, ev *evProp, gi *GroupInfo) {
 	}
 	l := &lawCtx{t: t, ev: ev, gi: gi}
 	l.ctx = fmt.Sprintf("group=%s a=%s b=%s P=%s Q=%s R=%s", gi.Name, a, b, P.Desc, Q.Desc, R.Desc)
-	pt := func() kyber.Point { return markVT(gi, g.Point()) }
+	// receivers: fresh, or "used" - already holding an unrelated non-identity value, which every
+	// operation must overwrite completely (an early return that leaves the receiver alone, or an
+	// accumulation that starts from the receiver's old content, only shows there)
+	used := rapid.IntRange(0, 2).Draw(t, "usedreceivers") == 0
+	l.ctx += fmt.Sprintf(" usedReceivers=%v", used)
+	junk := []kyber.Point{R.P, Q.P, P.P}
+	nrecv := 0
+	pt := func() kyber.Point {
+		p := markVT(gi, g.Point())
+		if used {
+			nrecv++
+			p.Set(junk[nrecv%len(junk)])
+			p.Add(p, junk[(nrecv+1)%len(junk)])
+		}
+		return p
+	}
 	O := nullPoint(gi)
 	B := basePoint(gi)
 
@@ -128,7 +143,7 @@ func c01Case(t *rapid.T, ev *evProp, gi *GroupInfo) {
 
 const c01Rule = "case = (group, scalars a,b from edge-biased classes {0,1,2,q-1,q-2,(q±1)/2,2^k,2^k±1 on limb/window boundaries,leading-zero,short,window patterns,uniform}, " +
 	"points P,Q,R from {O,B,-B,k*B,a*B,Pick,Embed,Hash,decoded,sum/diff/double/multiple of earlier points, pairing outputs for GT}, Q=P forced in 1/6 of cases); " +
-	"24 identities (+8 with the receiver aliasing an operand) are evaluated per case, each asserted by Equal in both directions and by identical encodings, plus 5 comparisons with the math/big reference model where one exists. " +
+	"24 identities (+8 with the receiver aliasing an operand; in 1/3 of the cases every receiver already holds an unrelated value) are evaluated per case, each asserted by Equal in both directions and by identical encodings, plus 5 comparisons with the math/big reference model where one exists. " +
 	"non-trivial = an operand is an edge value, P=Q, or an operand is the result of earlier arithmetic (non-normalised internals); distinct = distinct rendered case" +
 	" Added after the sensitivity rounds: registry includes a cofactor-R>2 residue group and 'short coordinate' multiples of B; after every case values obtained from Base()/Null() are overwritten in place and the constants are compared with encodings recorded at process start."
 
